@@ -161,6 +161,22 @@ func (tx *Tx) Commit() error {
 		countFlag = CountFlagDisabled
 	}
 
+	// reject the transaction before anything is written
+	for i := 0; i < writesLen; i++ {
+		if tx.pendingWrites[i].Size() > tx.db.opt.SegmentSize {
+			return ErrKeyAndValSize
+		}
+	}
+
+	// hint index updates of the RAM index modes, applied once every record is written
+	type kvIdxUpdate struct {
+		bucket   string
+		entry, e *Entry
+		fileID   int64
+		off      int64
+	}
+	var kvIdxUpdates []kvIdxUpdate
+
 	for i := 0; i < writesLen; i++ {
 		entry := tx.pendingWrites[i]
 		entrySize := entry.Size()
@@ -225,8 +241,24 @@ func (tx *Tx) Commit() error {
 		}
 
 		if entry.Meta.ds == DataStructureBPTree {
-			tx.buildBPTreeIdx(bucket, entry, e, off, countFlag)
+			if tx.db.opt.EntryIdxMode == HintBPTSparseIdxMode {
+				tx.buildBPTreeIdx(bucket, entry, e, off, countFlag)
+			} else {
+				kvIdxUpdates = append(kvIdxUpdates, kvIdxUpdate{bucket, entry, e, tx.db.ActiveFile.fileID, off})
+			}
 		}
+	}
+
+	for _, u := range kvIdxUpdates {
+		if _, ok := tx.db.BPTreeIdx[u.bucket]; !ok || tx.db.BPTreeIdx[u.bucket] == nil {
+			tx.db.BPTreeIdx[u.bucket] = NewTree()
+		}
+		_ = tx.db.BPTreeIdx[u.bucket].Insert(u.entry.Key, u.e, &Hint{
+			fileID:  u.fileID,
+			key:     u.entry.Key,
+			meta:    u.entry.Meta,
+			dataPos: uint64(u.off),
+		}, countFlag)
 	}
 
 	tx.buildIdxes(writesLen)
